@@ -95,6 +95,17 @@ def install(lib, np_):
     if isinstance(obj, (VList, VTuple, VInt, VReal, VBool)):
       s = as_arr(cx, obj)
       return cx.new(None, s.shape.dims, k or s.kind)
+    if isinstance(obj, VListRef):
+      L = cx.p.lists[obj.lid]
+      e = L['elem']
+      if isinstance(e, VTuple):
+        return cx.new(None, [L['n'], z3.IntVal(len(e.items))], k or 'i')
+      if isinstance(e, (VInt, VReal)):
+        return cx.new(None, [L['n']], k or ('i' if isinstance(e, VInt) else 'f'))
+      if isinstance(e, VArr):
+        es = st_of(cx, e)
+        return cx.new(None, [L['n']] + list(es.shape.dims), k or es.kind)
+      raise Unsupported('np.array of a list of %r' % (e,))
     if isinstance(obj, VOpaque):
       # list(set) / list(dict.keys()) ...: a sequence of unknown length
       n = fresh_count(cx, 'len', 0, 10 ** 9)
@@ -140,8 +151,24 @@ def install(lib, np_):
       return [as_arr(cx, x) for x in seq.items]
     return None
 
+  def symlist(cx, seq):
+    """(n, element ArrState) of a symbolic-length python list, or None"""
+    if not isinstance(seq, VListRef):
+      return None
+    L = cx.p.lists[seq.lid]
+    if L['elem'] is None:
+      raise Unsupported('list of unknown element type (line %s)' % cx.line())
+    return L['n'], as_arr(cx, L['elem'])
+
   @ext('numpy.vstack', 'ASSUMED: arrays stacked along axis 0 (1-D arrays are rows); a single N-D array is stacked over its first axis')
   def _vstack(cx, seq, **kw):
+    sl = symlist(cx, seq)
+    if sl is not None:
+      n, e = sl
+      if e.shape.rank == 2:
+        tot = fresh_count(cx, 'rows', 0, 10 ** 12)
+        return cx.new(None, [tot, e.shape.dims[1]], e.kind)
+      raise Unsupported('vstack of a symbolic list of rank-%d arrays' % e.shape.rank)
     items = seq_items(cx, seq)
     if items is None:
       s = st_of(cx, seq)          # np.vstack(array): iterate the first axis
@@ -171,6 +198,16 @@ def install(lib, np_):
 
   @ext('numpy.hstack', 'ASSUMED: 1-D arrays concatenated; N-D arrays concatenated along axis 1')
   def _hstack(cx, seq, **kw):
+    sl = symlist(cx, seq)
+    if sl is not None:
+      n, e = sl
+      cx.may_raise('ValueError', n == 0, 'need at least one array to concatenate')
+      tot = fresh_count(cx, 'cols', 0, 10 ** 12)
+      if e.shape.rank == 2:
+        return cx.new(None, [e.shape.dims[0], tot], e.kind)
+      if e.shape.rank <= 1:
+        return cx.new(None, [tot], e.kind)
+      raise Unsupported('hstack of a symbolic list of rank-%d arrays' % e.shape.rank)
     items = seq_items(cx, seq)
     if items is None:
       s = st_of(cx, seq)
@@ -236,7 +273,10 @@ def install(lib, np_):
     outs = [u]
     if return_inverse is not None and kwbool(return_inverse, False):
       inv_dims = [n] if ax == 0 else list(s.shape.dims) if s.shape.rank == 1 else [s.shape.size()]
-      outs.append(cx.new(TH.unique_inv(s.term) if s.term is not None else None, inv_dims, 'i'))
+      inv = cx.new(TH.unique_inv(s.term) if s.term is not None else None, inv_dims, 'i')
+      # every one of the m distinct values occurs at least once: masks `inverse == c` with 0 <= c < m are non-empty
+      cx.p.store[inv.loc] = cx.p.store[inv.loc].replace(tag=('uniq-inv', m))
+      outs.append(inv)
     if return_counts is not None and kwbool(return_counts, False):
       outs.append(cx.new(TH.unique_counts(s.term) if s.term is not None else None, [m], 'i'))
     return outs[0] if len(outs) == 1 else VTuple(outs)
@@ -429,12 +469,13 @@ def install(lib, np_):
     cx.may_raise('LinAlgError', None, 'eig did not converge')
     return VTuple([cx.new(None, [n], 'c'), cx.new(None, [n, n], 'c')])
 
-  @ext('scipy.linalg.eig')
+  @ext('scipy.linalg.eig', 'ASSUMED: eigenvalues are returned with complex dtype; the eigenvector matrix has real dtype when all eigenvalues '
+       'are real (assumed for the symmetric-definite pencils LFDA passes), complex otherwise')
   def _seig(cx, a, b=None, **kw):
     s = st_of(cx, a)
     n = s.shape.dims[0]
     cx.may_raise('LinAlgError', None, 'eig did not converge')
-    return VTuple([cx.new(None, [n], 'c'), cx.new(None, [n, n], 'c')])
+    return VTuple([cx.new(None, [n], 'c'), cx.new(None, [n, n], 'f')])
 
   @ext('scipy.sparse.linalg.eigsh', 'ASSUMED: k extreme eigenpairs (real) of a symmetric (generalised) problem; raises ValueError (k >= n), '
        'ArpackNoConvergence, LinAlgError; UNSEEDED start vector unless v0 is given')
@@ -758,16 +799,23 @@ def install(lib, np_):
 
   @ext('collections.Counter')
   def _counter(cx, *a):
-    return new_extobj(cx.p, 'counter')
+    m = fresh_count(cx, 'nkeys', 0, 10 ** 12)
+    return new_extobj(cx.p, 'counter', m=m)
+
+  def counter_list(cx, o, elem):
+    lid = fresh_name('l')
+    cx.p.lists[lid] = dict(n=cx.p.heap[o.oid]['m'], elem=elem)
+    return VListRef(lid)
 
   @emethod('counter', 'update')
   def _cupd(cx, o, *a):
+    cx.p.heap[o.oid]['m'] = fresh_count(cx, 'nkeys', 0, 10 ** 12)
     return VNone()
 
-  @emethod('counter', 'keys')
+  @emethod('counter', 'keys', 'ASSUMED: Counter over zip(a, b): keys are pairs')
   def _ckeys(cx, o):
-    return VOpaque('counter-keys')
+    return counter_list(cx, o, VTuple([VInt(fresh('k0', z3.IntSort())), VInt(fresh('k1', z3.IntSort()))]))
 
   @emethod('counter', 'values')
   def _cvals(cx, o):
-    return VOpaque('counter-values')
+    return counter_list(cx, o, VInt(fresh('cnt', z3.IntSort())))
